@@ -113,3 +113,15 @@ Definition raw_name_of (s : str) : name :=
   | [c] => if c =? c_dot then [] else parse_pres s []
   | _ => parse_pres s []
   end.
+
+(* ---- do two lists (same whitelist) block the same names?  Decided on finitely many
+   probes: every entry of either list and a child of it under a label [z] that occurs
+   nowhere (Proofs_equiv.spec_equiv_n_sound). *)
+Definition fresh_for (z : label) (M1 W1 M2 W2 Wl : list name) : bool :=
+  forallb (fun n => negb (existsb (str_eqb z) n)) (M1 ++ W1 ++ M2 ++ W2 ++ Wl).
+Definition equiv_probes_n (z : label) (M1 W1 M2 W2 : list name) : list name :=
+  let es := M1 ++ W1 ++ M2 ++ W2 in es ++ map (cons z) es.
+Definition spec_equiv_n (z : label) (Wl M1 W1 M2 W2 : list name) : bool :=
+  fresh_for z M1 W1 M2 W2 Wl &&
+  forallb (fun q => Bool.eqb (spec_blocked_b M1 W1 Wl q) (spec_blocked_b M2 W2 Wl q))
+          (equiv_probes_n z M1 W1 M2 W2).
